@@ -39,7 +39,7 @@ func moduleOrder(rep *mbt.Report, tier string, rng *rand.Rand) {
 		if n == 1 {
 			rep.Sample(map[string]interface{}{"kind": "permutation", "src": c.Text, "required_order": c.Want.Mod})
 		}
-		for _, d := range trcheck.CompareOrder(c.Want.Mod, c.Mod, c.Printed) {
+		for _, d := range trcheck.CompareOrder(c.Want.Mod, c.Parsed, c.Printed) {
 			sec := d
 			if i := strings.Index(d, ":"); i > 0 {
 				sec = d[:i]
